@@ -955,6 +955,10 @@ class Interp:
                 r = a is b
             return (not r) if isinstance(op, ast.IsNot) else r
         o = _CMPOPS[type(op)]
+        if isinstance(a, ModelObject) and hasattr(a, "compare"):
+            return a.compare(o, b)
+        if isinstance(b, ModelObject) and hasattr(b, "compare"):
+            return b.compare({"<": ">", "<=": ">=", ">": "<", ">=": "<=", "==": "==", "!=": "!="}[o], a)
         if isinstance(a, Arr) or isinstance(b, Arr):
             return self.npm.elementwise(self.cx, o, a, b)
         if isinstance(a, (tuple, list)) and isinstance(b, (tuple, list)):
